@@ -52,8 +52,12 @@ namespace nmtools::view
         auto operator()(const T& t, const U& u) const
         {
             if constexpr (meta::is_view_v<T> || meta::is_view_v<U>) {
-                using common_t [[maybe_unused]] = meta::common_type_t<T,U>;
-                return math::pow(static_cast<common_t>(t),static_cast<common_t>(u));
+                // an operand wrapped in a (num) view: unwrap each operand to its own element type.
+                // (casting both to common_type_t<T,U> picks the type of the non-view operand:
+                //  power(2.5f, int_array) computed pow(2,n), power(double_num, 0.5f) computed powf)
+                using t_t [[maybe_unused]] = meta::conditional_t<meta::is_view_v<T>,meta::get_element_type_t<T>,T>;
+                using u_t [[maybe_unused]] = meta::conditional_t<meta::is_view_v<U>,meta::get_element_type_t<U>,U>;
+                return math::pow(static_cast<t_t>(t),static_cast<u_t>(u));
             } else {
                 return math::pow(t,u);
             }
